@@ -21,4 +21,4 @@ META = {
 
 def run(ctx):
     import engine
-    engine.run_rules(ctx, [dt.r03_1, dt.r03_2, dt.r03_3, dt.r03_4, dt.r03_5, dt.r03_6, dt.r03_7, dt.r03_8, dt.r02_6, dt.r02_7])
+    engine.run_rules(ctx, [dt.r03_1, dt.r03_2, dt.r03_3, dt.r03_4, dt.r03_5, dt.r03_6, dt.r03_7, dt.r03_8, dt.r02_6, dt.r02_7, dt.r02_3, dt.r03_9, dt.r03_10])
